@@ -88,6 +88,16 @@ def preDec (it : Iter C) : Iter C × Iter C :=
   let cur := it.cur - 1
   ({ it with cur := cur }, { dims := it.dims, cur := cur })
 def jumpTo (it : Iter C) (i : U64) : Iter C := { it with cur := i }
+/-- `operator--(int)` : `current_index--; return *this` -/
+def postDec (it : Iter C) : Iter C × Iter C :=
+  let it' := { it with cur := it.cur - 1 }
+  (it', it')
+/-- `operator+(size_t)`, `operator-(size_t)`, `operator+(const iterator&)`, `operator-(const iterator&)`:
+    all four modify `*this` (`current_index += ...`) and return a reference to it -/
+def addN (it : Iter C) (n : U64) : Iter C := { it with cur := it.cur + n }
+def subN (it : Iter C) (n : U64) : Iter C := { it with cur := it.cur - n }
+def addIt (it o : Iter C) : Iter C := { it with cur := it.cur + o.cur }
+def subIt (it o : Iter C) : Iter C := { it with cur := it.cur - o.cur }
 end Iter
 
 theorem iter_measure (e cur : U64) (h : cur ≠ e) : (e - (cur + 1)).toNat < (e - cur).toNat := by
